@@ -44,6 +44,16 @@ delete mark, read from the page bytes) vs `rows`; `idx` vs `idx c` for every ind
 every open transaction (kinds, rids, old and new tuples); at the end of a history also `scan` (the engine's own
 iterator) vs the unmarked rows.
 
+GENERATOR: one table per history (2-4 columns: ints and one varchar; every column without index or with a skip-list
+index, in some histories a B-tree on the integer columns), 3-18 initial rows loaded by committed transactions, then
+10-25 steps of 2-3 concurrently open transactions: INSERT / UPDATE of 1..n columns (SET list in schema order) /
+DELETE / SELECT with `col = v`, `col = v OR col2 = w` or no predicate, COMMIT, ABORT.  Values come from small domains
+and predicates aim at rows the transaction itself or another open transaction has written.  "fat" histories use
+200-230 byte strings (multi-page heap; growing updates relocate rows when the page is full; every shrinking update
+relocates: ErrRollbackDifficult).  "point heavy" histories use almost only index point predicates, so that several
+writing transactions stay alive side by side.  NULLs, negative numbers, hash indexes and SET lists out of schema
+order (listed findings) are not generated.
+
 The harness process is replaced every few seconds: the engine starts a statistics thread that S-locks every row
 every 10 s and a checkpoint thread (30 s) that would block a session with open transactions.
 """
@@ -105,6 +115,7 @@ def squeeze(s):
 class Txn:
     def __init__(self, name, tid):
         self.name, self.id = name, tid
+        self.nstmt = 0
         self.wrecs = []          # engine write records seen so far: (kind, r1, r2, old, new)
 
     def own_rids(self):
@@ -437,6 +448,7 @@ class Corr:
             del self.open[t.name]
         else:
             t.wrecs = recs
+            t.nstmt += 1
             if st["kind"] == "sel":
                 erows = ans[3:].split(";") if ans[3:] else []
                 if erows != rows:
@@ -453,6 +465,10 @@ class Corr:
         if self.Mop("%s %d" % (how, t.id)) != "ok":
             raise Diverged("model %s does not answer ok" % how)
         self.count(how + ("_initial_load" if initial else ""))
+        if not initial:
+            done = {"commit": "committed", "abort": "aborted"}[how]
+            self.count("statements_of_%s_transactions" % done, t.nstmt)
+            self.count("write_records_of_%s_transactions" % done, len(t.wrecs))
         del self.open[t.name]
 
     # ------------------------------------------------------------ generator
@@ -486,12 +502,17 @@ class Corr:
     def gen_pred(self, t, kind):
         rng, f = self.rng, self.focus
         r = rng.random()
-        if r < 0.07 and kind != "del":
+        p_none, p_or, p_icol = 0.07, (0.30 if f != "index" else 0.2), {"index": 0.8, "visibility": 0.7}.get(f, 0.55)
+        if self.point_heavy:
+            # mostly index point predicates: these are the statements of different transactions that can coexist
+            # (a sequential scan stops at the first row another open transaction has written)
+            p_none, p_or, p_icol = 0.015, 0.06, 0.93
+        if r < p_none and kind != "del":
             return None
         row = self.pick_row(t)
         ncol = len(self.types)
         cols = list(range(ncol))
-        if self.icols and rng.random() < {"index": 0.8, "visibility": 0.7}.get(f, 0.55):
+        if self.icols and rng.random() < p_icol:
             cols = self.icols
         c = rng.choice(cols)
         v = self.tok_to_val(c, row[1][c]) if row and rng.random() < 0.9 else self.rand_val(c)
@@ -501,7 +522,7 @@ class Corr:
             if ws:
                 w = rng.choice(ws)
                 v = self.tok_to_val(c, rng.choice([w[3], w[4]]).split(",")[c])
-        if r < (0.30 if f != "index" else 0.2):
+        if r < p_or:
             c2 = c if rng.random() < 0.6 else rng.randrange(ncol)
             row2 = self.pick_row(t)
             v2 = self.tok_to_val(c2, row2[1][c2]) if row2 and rng.random() < 0.7 else self.rand_val(c2)
@@ -573,6 +594,7 @@ class Corr:
                 self.count("histories_with_btree_index")
         self.icols = [c for c in range(ncol) if kinds[c] != "n"]
         self.fat = rng.random() < 0.4
+        self.point_heavy = bool(self.icols) and rng.random() < {"abort": 0.25}.get(f, 0.4)
         a = self.E("mktable %s %s" % (self.tab, ",".join("%s:%s:%s" % (COLNAMES[c], self.types[c], kinds[c]) for c in range(ncol))))
         if not a.startswith("ok"):
             raise Unsupported("mktable answers %s" % a)
@@ -646,6 +668,7 @@ def run_corr(res, rng, nhist, focus=None, mutate=None):
         res.broken.append("build/engine_driver is missing (extracted engine model)")
         return
     c = Corr(res, rng, focus, mutate)
+    nbroken = 0
     try:
         for _ in range(nhist):
             try:
@@ -655,13 +678,21 @@ def run_corr(res, rng, nhist, focus=None, mutate=None):
                 c.nhist += 1
                 c.nmis += 1
                 if len(res.mismatches) < 5:
-                    res.mismatches.append((c.transcript(), "engine model (Model/Engine.v) vs engine: " + str(d)))
+                    head = ("# engine/model correspondence (lib/enginecorr.py), history %d of this run, focus=%s, table %s, columns %s, indexed %s\n"
+                            "# E> command to `verifharness db`, E< its answer; M> command to build/engine_driver, M< its answer\n"
+                            % (c.nhist, focus, c.tab, c.types, c.icols))
+                    res.mismatches.append((head + c.transcript(), "engine model (Model/Engine.v) vs engine: " + str(d)))
                 c.cleanup_engine()
             except Unsupported as u:
                 res.broken.append("engine/model correspondence cannot run: %s" % str(u)[:300])
                 c.cleanup_engine()
-                if len(res.broken) > 3:
+                nbroken += 1
+                if nbroken > 3:
                     break
+            except Exception as e:          # a bug of this module must not look like agreement
+                res.broken.append("engine/model correspondence crashed: %s: %s" % (type(e).__name__, str(e)[:300]))
+                c.cleanup_engine()
+                break
     finally:
         c.close()
         x = res.extra
